@@ -53,9 +53,11 @@ def run(ctx):
               "pool cases with more than one instance or a token >= 2 s late / discarded; "
               "comp and first cases always; st and near cases always; distinct = distinct case lines"),
         key_fn=key_fn,
-        translators=[("consts", "ConstGen.v"), ("gofn-waiter", "GoFnWaiterGen.v"), ("pooldeps", "PoolDepsGen.v")],
+        translators=[("consts", "ConstGen.v"), ("gofn-waiter", "GoFnWaiterGen.v"), ("pooldeps", "PoolDepsGen.v"),
+                     ("sched", "SchedGen.v")],
         bridge_files=["Gen/Waiter_bridge.v", "Gen/GoFnWaiter_bridge.v", "Gen/PoolDeps_bridge.v",
-                      "Properties/C04_leaf.v", "Gen/WaiterLeaf_bridge.v"],
+                      "Properties/C04_leaf.v", "Gen/WaiterLeaf_bridge.v",
+                      "Properties/C04_profile.v", "Gen/WaiterStep_bridge.v"],
         trusted=[
             "translator harness/cmd/translate consts (MaxOverdueDuration, DiscardedShootCodeError, DiscardedShootTag compiled from /repo)",
             "translator harness/cmd/translate pooldeps (the boolean expressions carrying discard_overflow: startInstances' instanceSharedDeps literal, "
